@@ -201,6 +201,25 @@ def run(ctx):
                             'res': {'ds': [], 'de': [], 'dl': []}, 'calldep': False, 'parts': parse_result(tk[2], S, [e0] + Eb)})
                 info[oid] = (text, S, [e0] + Eb)
     ctx.extra['zero_nonzero_shapes'] = nshape
+    # the result part comes from the END record ONLY: records of the thread that lie between START and END - announcements of a
+    # new thread / an exec'ed process, terminate records, sampler thread info, undecoded trace-class records - change nothing
+    nbetween = 0
+    w_ = pr.w
+    for name in names:
+        S = pr.distinct_words(name, 'start')
+        for e0 in (0, 2):
+            E = [e0] + pr.distinct_words(name, 'end')[1:]
+            base = pr.render(name, S, E, [])
+            between = [w_.ntd(1, 2, 4242), w_.exd(1, 4343), w_.tpid(1, 4444), w_.thd(1, 4545, 1), w_.term(1, 2)] + \
+                ([w_.known(0, 1, name=rnd.choice(w_.trace_known))] if w_.trace_known else [])
+            rnd.shuffle(between)
+            t2 = pr.render(name, S, E, [], nested=between[:rnd.choice([1, 3, 6])])
+            nbetween += 1
+            if base is not None and t2 != base:
+                ctx.violation('C10/records-between-change-result@%s' % name, '%s with END %s reads %r; with announcement / terminate / sampler records of the thread between START and END it reads %r'
+                              % (name, [hex(x) for x in E], base, t2),
+                              {'kind': 'render', 'name': name, 'start': [hex(x) for x in S], 'end': [hex(x) for x in E]})
+    ctx.extra['results_with_records_between'] = nbetween
     nv, rej, _ = validate_observations('Render_Val', obs, ctx.workdir, name='c10val', timeout=3000, dedupe=True)
     ctx.traces += nv
     for oid, clause in rej:
